@@ -396,23 +396,10 @@ fn run_case(case: &Value, refs: &mut BTreeMap<String, Result<Outcome, String>>, 
             }
         } else {
             if !complete || r.diverged.is_some() {
-                // cut or diverged schedule: let everything that has not happened yet happen
+                // cut or diverged schedule: let everything that has NOT happened yet happen (never a second time:
+                // that could rescue a loop that lost the first one)
                 let e2 = env.clone();
-                let p2 = prog.clone();
-                std::thread::spawn(move || {
-                    for (o, _) in &p2.ops {
-                        e2.fire_op(o);
-                    }
-                    for (j, _) in &p2.jobs {
-                        e2.fire_job(j);
-                    }
-                    let mut pending: Vec<String> = p2.wakers.iter().map(|(w, _)| w.clone()).collect();
-                    let t0 = Instant::now();
-                    while !pending.is_empty() && t0.elapsed() < Duration::from_secs(10) {
-                        pending.retain(|w| !e2.fire_wake(w));
-                        std::thread::sleep(Duration::from_millis(1));
-                    }
-                });
+                std::thread::spawn(move || e2.fire_remaining());
             }
             match rx.recv_timeout(watchdog()) {
                 Ok(x) => outcome = Some(x),
